@@ -67,6 +67,7 @@ def run(idx: Index, rep: Report, tier: str):
     check_penalties(idx, rep)
     check_reordering(idx, rep)
     check_spin_source(idx, rep)
+    check_pool_conservation(idx, rep, tier)
     # "for all parameter values": a parameter vector also reaches the circuit through update_var_params; the particle-conserving structure is that
     # of the *built* circuit, so the updated circuit has to be the built one (necessary condition, decided as in C07)
     from . import C07
@@ -350,3 +351,47 @@ def check_spin_source(idx: Index, rep: Report):
                            reason=f"{c.name} takes {sorted(srcs)}: for an unrestricted molecule whose frozen alpha and beta orbitals differ the reference determinant, and with it every "
                                   f"prepared state, sits in the wrong spin-projection sector")
     rep.floor("ansatz classes taking their spin from the molecule", n, 6)
+
+
+GUCC = "tangelo/toolboxes/ansatz_generator/_general_unitary_cc.py"
+
+
+def check_pool_conservation(idx: Index, rep: Report, tier: str = "quick"):
+    """The generalised singles-and-doubles pool (ADAPT's default fermionic pool) folded into exact matrices on the Fock space, for both values of its ordering
+    flag: every pool operator is anti-Hermitian and commutes with the particle number and the spin projection *in the interleaved spin-orbital order*, which
+    is the order every encoder of the library expects its fermionic input in (the re-ordering for up_then_down is applied by the encoder, once)."""
+    rule = "K9.pool-conservation"
+    f = idx.function(f"{GUCC}::uccgsd_generator")
+    n = 0
+    for n_orbs in ((2, 3) if tier == "thorough" else (2,)):
+        nq = 2 * n_orbs
+        N, Sz2, _S2 = reference_ops(n_orbs, False)
+        for flag in (False, True):
+            _FockOp.n = nq
+            fo = cs.make_folder(idx, GUCC, ctors={"FermionOperator": lambda a, k: _FockOp(*a, **k), "normal_ordered": lambda a, k: a[0],
+                                                   "get_coeffs": lambda a, k: [2 * i + 3 for i in range(400)]})
+            try:
+                pool = fo.run_function(f.node, {"n_qubits": nq, "single_coeffs": None, "double_coeffs": None, "up_down": flag})
+            except Undecidable as e:
+                raise AnalysisError(f"uccgsd_generator not foldable: {e}")
+            except Raised as e:
+                rep.violation(rule, f, f.node, text=f"pool for {nq} spin-orbitals, up_down={flag}", what="the pool is defined for every even number of spin-orbitals", reason=f"raises {e.exc_type}")
+                continue
+            if not isinstance(pool, list) or not pool or not all(isinstance(g, _FockOp) for g in pool):
+                raise AnalysisError(f"uccgsd_generator folded to {pool!r:.80}")
+            bad = []
+            for k, g in enumerate(pool):
+                m = g.m
+                if not _mat_eq(m.dot(N), N.dot(m)):
+                    bad.append(f"operator {k} does not commute with the particle number")
+                elif not _mat_eq(m.dot(Sz2), Sz2.dot(m)):
+                    bad.append(f"operator {k} does not commute with Sz (interleaved spin-orbitals)")
+                elif not _mat_eq(m.T, -m):
+                    bad.append(f"operator {k} is not anti-Hermitian")
+            n += 1
+            rep.decide(not bad, rule, f, f.node, text=f"uccgsd_generator({nq}, up_down={flag}): {len(pool)} pool operators",
+                       what="every pool operator is anti-Hermitian and conserves particle number and spin projection for interleaved spin-orbitals, whatever the ordering flag "
+                            "(the encoder applies the requested ordering once)",
+                       reason="; ".join(bad[:3]))
+    _FockOp.n = 2
+    rep.floor("pools folded", n, 4 if tier == "thorough" else 2)
